@@ -52,3 +52,5 @@
 (declare-fun typeOfS (Any) S_reflection_TypeSpecifier)
 (declare-fun typeOfOk (Any) Bool)
 (declare-fun choiceOfS (Any) Any)
+; C17: the answer of evalopts.validateType on a value (named; defined by that function's contract)
+(declare-fun envOk (Any) Bool)
